@@ -295,6 +295,16 @@ impl<'a> Gen<'a> {
                     };
                     self.hrefs.push(href.clone());
                     let mut attrs = vec![("href".to_string(), href)];
+                    if self.o.ids && self.rng.chance(1, 6) {
+                        // an anchor that is a link and has a name: attribute order either way
+                        self.idn += 1;
+                        let nm = ("name".to_string(), format!("id{}", self.idn));
+                        if self.rng.chance(1, 2) {
+                            attrs.push(nm);
+                        } else {
+                            attrs.insert(0, nm);
+                        }
+                    }
                     self.maybe_id(&mut attrs);
                     *budget -= 1;
                     if self.o.odd_links && self.rng.chance(1, 20) {
@@ -339,6 +349,10 @@ impl<'a> Gen<'a> {
                             _ => H::El("span".into(), vec![], vec![H::Text(format!(" {}", w))]),
                         };
                         v.push(H::El("sup".into(), attrs, vec![H::Text(d), more]));
+                    } else if self.rng.chance(1, 6) {
+                        // numeric characters that are not ASCII digits (alone, or mixed with digits)
+                        let d = *self.rng.pick(&["\u{b2}", "\u{bd}", "\u{2460}", "\u{661}", "\u{ff11}\u{ff12}", "1\u{662}", "\u{2075}2", "\u{2167}", "\u{96d}"]);
+                        v.push(H::El("sup".into(), attrs, vec![H::Text(d.to_string())]));
                     } else if self.rng.chance(1, 2) {
                         let d = format!("{}", self.rng.below(100));
                         v.push(H::El("sup".into(), attrs, vec![H::Text(d)]));
@@ -491,7 +505,9 @@ impl<'a> Gen<'a> {
                         } else {
                             self.inline(1, &mut b)
                         };
-                        el("li", kids)
+                        let mut a = vec![];
+                        self.maybe_id(&mut a);
+                        H::El("li".into(), a, kids)
                     })
                     .collect();
                 H::El("ol".into(), attrs, items)
@@ -546,9 +562,15 @@ impl<'a> Gen<'a> {
                 let mut kids = vec![];
                 for _ in 0..n {
                     let mut b = self.rng.range(1, 3);
-                    kids.push(el("dt", self.inline(1, &mut b)));
+                    let mut a = vec![];
+                    self.maybe_id(&mut a);
+                    let k = self.inline(1, &mut b);
+                    kids.push(H::El("dt".into(), a, k));
                     let mut b = self.rng.range(1, 6);
-                    kids.push(el("dd", self.inline(1, &mut b)));
+                    let mut a = vec![];
+                    self.maybe_id(&mut a);
+                    let k = self.inline(1, &mut b);
+                    kids.push(H::El("dd".into(), a, k));
                 }
                 H::El("dl".into(), attrs, kids)
             }
